@@ -5,13 +5,14 @@
 
 mod common;
 
+mod c13;
 mod c16;
 
 use common::{Check, Opts, Tier};
 use std::path::PathBuf;
 
 fn registry() -> Vec<Box<dyn Check>> {
-    vec![Box::new(c16::C16)]
+    vec![Box::new(c13::C13), Box::new(c16::C16)]
 }
 
 thread_local! {
